@@ -81,11 +81,33 @@ Proof. exact diamond_sync_rendezvous_run. Qed.
 Theorem C03_determinism_partial : forall (md : exec_mode) (D : STypes.tenv) (F : list fundef) (I : config -> Prop),
   (forall c ch c', I c -> step md D F c ch = SStep c' -> I c') ->
   (forall c a b c1 c2, I c -> a ≠ b -> step md D F c a = SStep c1 -> step md D F c b = SStep c2 -> indep md D c a b) ->
-  (forall c ch who e, I c -> step md D F c ch ≠ SError who e) ->
+  (forall c a b w e c', I c -> step md D F c a = SError w e -> step md D F c b = SStep c' ->
+     exists w' e', step md D F c' a = SError w' e') ->
   forall c pick1 pick2 f1 f2 t1,
     I c -> ns_ok c -> exec_run f1 pick1 md D F c = RQuiescent t1 -> (f1 <= f2)%nat ->
     exists t2, exec_run f2 pick2 md D F c = RQuiescent t2 /\ cfg_equiv t2 t1 /\ labels t2 ≡ₚ labels t1.
 Proof. exact determinism_partial. Qed.
+
+(* the same with "no run-time error" (C01) as third premise *)
+Theorem C03_determinism_partial_safe : forall (md : exec_mode) (D : STypes.tenv) (F : list fundef) (I : config -> Prop),
+  (forall c ch c', I c -> step md D F c ch = SStep c' -> I c') ->
+  (forall c a b c1 c2, I c -> a ≠ b -> step md D F c a = SStep c1 -> step md D F c b = SStep c2 -> indep md D c a b) ->
+  (forall c ch who e, I c -> step md D F c ch ≠ SError who e) ->
+  forall c pick1 pick2 f1 f2 t1,
+    I c -> ns_ok c -> exec_run f1 pick1 md D F c = RQuiescent t1 -> (f1 <= f2)%nat ->
+    exists t2, exec_run f2 pick2 md D F c = RQuiescent t2 /\ cfg_equiv t2 t1 /\ labels t2 ≡ₚ labels t1.
+Proof. exact determinism_partial_safe. Qed.
+
+(* dying with a run-time error is schedule independent as well *)
+Theorem C03_error_excludes_completion : forall (md : exec_mode) (D : STypes.tenv) (F : list fundef) (I : config -> Prop),
+  (forall c ch c', I c -> step md D F c ch = SStep c' -> I c') ->
+  (forall c a b c1 c2, I c -> a ≠ b -> step md D F c a = SStep c1 -> step md D F c b = SStep c2 -> indep md D c a b) ->
+  (forall c a b w e c', I c -> step md D F c a = SError w e -> step md D F c b = SStep c' ->
+     exists w' e', step md D F c' a = SError w' e') ->
+  forall c pick1 pick2 f1 f2 t1 who e t2,
+    I c -> ns_ok c -> exec_run f1 pick1 md D F c = RError t1 who e ->
+    exec_run f2 pick2 md D F c = RQuiescent t2 -> False.
+Proof. exact error_excludes_completion. Qed.
 
 Theorem C03_maximal_runs_same_length : forall (md : exec_mode) (D : STypes.tenv) (F : list fundef) (I : config -> Prop),
   (forall c ch c', I c -> step md D F c ch = SStep c' -> I c') ->
@@ -118,7 +140,8 @@ Proof. exact sync_run_matched. Qed.
 Theorem C03_async_sync_agree_partial : forall (D : STypes.tenv) (F : list fundef) (I : config -> Prop),
   (forall c ch c', I c -> step Async D F c ch = SStep c' -> I c') ->
   (forall c a b c1 c2, I c -> a ≠ b -> step Async D F c a = SStep c1 -> step Async D F c b = SStep c2 -> indep Async D c a b) ->
-  (forall c ch who e, I c -> step Async D F c ch ≠ SError who e) ->
+  (forall c a b w e c', I c -> step Async D F c a = SError w e -> step Async D F c b = SStep c' ->
+     exists w' e', step Async D F c' a = SError w' e') ->
   forall c pick1 f1 t1,
     I c -> ns_ok c -> bufs_empty c -> exec_run f1 pick1 Sync D F c = RQuiescent t1 ->
     exists n, forall pick2 f2, (n < f2)%nat ->
@@ -159,6 +182,8 @@ Print Assumptions C03_async_send_recv_exclusive.
 Print Assumptions C03_diamond_sync_rendezvous.
 Print Assumptions C03_diamond_sync_rendezvous_run.
 Print Assumptions C03_determinism_partial.
+Print Assumptions C03_determinism_partial_safe.
+Print Assumptions C03_error_excludes_completion.
 Print Assumptions C03_maximal_runs_same_length.
 Print Assumptions C03_no_longer_run.
 Print Assumptions C03_bufs_empty_init.
